@@ -258,6 +258,8 @@ Proof.
   - destruct (getc s c) as [k|] eqn:Hg; [|exact I]. apply cgood_ret.
     apply same_ud_put. intros k0 Hk0. rewrite Hg in Hk0. injection Hk0 as <-. auto.
   - apply cgood_ret, same_ud_refl.
+  - destruct (getc s c) as [k|] eqn:Hg; [|exact I]. destruct (k_alive k); [|exact I]. apply cgood_ret.
+    apply same_ud_put. intros k0 Hk0. rewrite Hg in Hk0. injection Hk0 as <-. auto.
 Qed.
 
 Lemma cgood_ev_step strict s c e : cgood s (ev_step strict s c e).
@@ -308,17 +310,29 @@ Proof.
   - apply cgood_on_conn. intros k Hg. apply cgood_ret. apply same_ud_put. intros k0 Hk0. rewrite Hg in Hk0. injection Hk0 as <-. auto.
   - destruct (getc s c) as [k|] eqn:Hg; [|exact I]. destruct (k_urefs k); [exact I|]. destruct (_ && _ && _ && _ && _); [exact I|].
     apply cgood_finish, cgood_ret. apply same_ud_put. intros k0 Hk0. rewrite Hg in Hk0. injection Hk0 as <-. auto.
-  - destruct (find_call u (s_calls s)); [exact I|]. apply cgood_on_conn. intros k Hg. apply cgood_ret, same_ud_conns. reflexivity.
+  - destruct (strict && is_dtor a); [exact I|]. destruct (find_call u (s_calls s)); [exact I|].
+    destruct (is_dtor a); [destruct (_ && _); [|exact I]|]; apply cgood_on_conn; intros k Hg; apply cgood_ret, same_ud_conns; reflexivity.
   - destruct (find_call u (s_calls s)) as [a|]; [|exact I]. destruct (a_stored a); [exact I|].
-    destruct (getc s (a_conn a)) as [k|] eqn:Hg; [|exact I]. destruct (_ && _); [exact I|]. apply cgood_ret.
+    destruct (getc s (a_conn a)) as [k|] eqn:Hg; [|exact I].
+    destruct (is_dtor (a_api a)).
+    { apply cgood_ret.
+      match goal with |- same_ud s (if _ then force_close ?s2 _ else _) => assert (L : same_ud s s2) by (apply same_ud_conns; rewrite conns_enq; reflexivity) end.
+      destruct (a_loaded a); [eapply same_ud_trans; [exact L|apply ud_force_close]|exact L]. }
+    destruct (_ && _ && _); [exact I|]. apply cgood_ret.
     destruct (_ && _); [|apply same_ud_conns; reflexivity].
     match goal with |- same_ud s (put ?s1 _ _) => apply (same_ud_trans s s1); [apply same_ud_conns; reflexivity|] end.
     apply same_ud_put. intros k0 Hk0. change (getc s (a_conn a) = Some k0) in Hk0.
     rewrite Hg in Hk0. injection Hk0 as <-. auto.
   - destruct (find_call u (s_calls s)) as [a|]; [|exact I]. destruct (negb (a_stored a)); [exact I|].
-    destruct (getc s (a_conn a)) as [k|] eqn:Hg; [|exact I]. destruct (_ && _ && _ && _); [exact I|].
+    destruct (getc s (a_conn a)) as [k|] eqn:Hg; [|exact I].
+    destruct (is_dtor (a_api a)).
+    { apply cgood_finish, cgood_ret.
+      match goal with |- same_ud s (set_cli (put ?s1 _ _) _ _) => apply (same_ud_trans s s1); [apply same_ud_conns; reflexivity|];
+        apply (same_ud_trans s1 (put s1 (a_conn a) (set_own k (k_ccb k) false (k_urefs k) (k_delayed k)))); [|apply same_ud_conns; reflexivity] end.
+      apply same_ud_put. intros k0 Hk0. change (getc s (a_conn a) = Some k0) in Hk0. rewrite Hg in Hk0. injection Hk0 as <-. auto. }
+    destruct (_ && _ && _ && _); [exact I|].
     apply cgood_finish, cgood_ret. destruct (a_loaded a); [|apply same_ud_conns; reflexivity].
-    destruct (a_api a); match goal with |- same_ud s (enq ?s1 _ _) => apply (same_ud_trans s s1); [apply same_ud_conns; reflexivity|apply same_ud_enq] end.
+    destruct (a_api a); try (apply same_ud_conns; reflexivity); match goal with |- same_ud s (enq ?s1 _ _) => apply (same_ud_trans s s1); [apply same_ud_conns; reflexivity|apply same_ud_enq] end.
 Qed.
 
 Lemma cgood_run strict ops : forall s, cgood s (run strict s ops).
